@@ -142,7 +142,6 @@ func main() {
 	}
 	r.Extra["analysed"] = analysed
 	runGuarded(p, w, r, "")
-	checkAssumptionA2(w, r)
 
 	if *tier == "thorough" {
 		configs := []LoadConfig{
@@ -205,6 +204,7 @@ func runGuarded(p *Property, w *World, r *Report, config string) {
 	}()
 	before := len(r.Obls)
 	p.Run(w, r)
+	checkAssumptionA2(w, r)
 	if config != "" {
 		for i := before; i < len(r.Obls); i++ {
 			r.Obls[i].Config = config
